@@ -589,3 +589,25 @@ pub(crate) struct Pake3<'a> {
     /// The cA confirmation (32 bytes HMAC)
     pub ca: OctetStr<'a>,
 }
+
+#[cfg(rs_matter_verif)]
+impl Pase {
+    /// Verification hook: a plain-data snapshot of the PASE manager.
+    pub fn verif_snapshot(&self) -> crate::verif::PaseSnap {
+        let w = self.comm_window.as_opt_ref();
+
+        crate::verif::PaseSnap {
+            window_open: w.is_some(),
+            discriminator: w.map(|w| w.discriminator).unwrap_or(0),
+            opener_fab_idx: w
+                .and_then(|w| w.opener.as_ref())
+                .map(|o| o.fab_idx.get()),
+            window_expiry_ms: w.map(|w| w.window_expiry.as_millis()).unwrap_or(0),
+            pake_failures: w.map(|w| w.pake_failures).unwrap_or(0),
+            session_timeout: self
+                .session_timeout
+                .as_ref()
+                .map(|t| (t.session_est_expiry.as_millis(), t.exch_id.verif_raw())),
+        }
+    }
+}
